@@ -4,8 +4,8 @@
    structure by structure and function by function inside Coq). *)
 From Coq Require Import List NArith Bool String Ascii.
 From GIV.Lib Require Import Regex Str.
-From GIV.Model Require Import C02 C16 C12.
-From GIV.Proofs Require Import C12.
+From GIV.Model Require Import C02 C04 C16 C12 C12Q.
+From GIV.Proofs Require Import C12 C12Q.
 Import ListNotations.
 Local Open Scope N_scope.
 
@@ -98,3 +98,43 @@ Theorem C12_get_type_functions_removed : forall funcs dump f,
   In f (remaining_functions funcs dump) <-> In f funcs /\ is_get_type dump f = false.
 Proof. exact remaining_functions_spec. Qed.
 Print Assumptions C12_get_type_functions_removed.
+
+(* ---- error quarks (Model/C12Q.v) *)
+(* an error-quark function gives its domain to the enumeration it belongs to — the one whose get-type symbol
+   prefix, underscored name or name is the function's name without "_quark" — unless a later quark function
+   of the same enumeration overwrites it; for every list of enumerations and quark functions *)
+Theorem C12_error_domain_given : forall es pre q post j e,
+  nth_error es j = Some e -> target es (q_short q) = Some j ->
+  (forall q', In q' post -> target es (q_short q') <> Some j) ->
+  option_map qe_domain (nth_error (fst (pair_all es (pre ++ q :: post))) j) = Some (Some (q_domain q)).
+Proof. exact domain_given. Qed.
+Print Assumptions C12_error_domain_given.
+
+(* an enumeration that no quark function belongs to keeps what it had (none, for a scanned enumeration) *)
+Theorem C12_error_domain_kept : forall es qs j e,
+  nth_error es j = Some e -> (forall q, In q qs -> target es (q_short q) <> Some j) ->
+  option_map qe_domain (nth_error (fst (pair_all es qs)) j) = Some (qe_domain e).
+Proof. exact domain_kept. Qed.
+Print Assumptions C12_error_domain_kept.
+
+(* exactly the quark functions without enumeration are reported; no enumeration is renamed, added or lost *)
+Theorem C12_unmatched_quarks_reported : forall es qs,
+  snd (pair_all es qs) = map q_short (filter (fun q => match target es (q_short q) with None => true | Some _ => false end) qs)
+  /\ map qe_name (fst (pair_all es qs)) = map qe_name es.
+Proof. exact unmatched_reported. Qed.
+Print Assumptions C12_unmatched_quarks_reported.
+
+Theorem C12_registered_prefix_first : forall es short i,
+  by_prefix es short = Some i -> target es short = Some i.
+Proof. exact registered_prefix_first. Qed.
+Print Assumptions C12_registered_prefix_first.
+
+(* non-vacuity: foo_codec_2_error_quark is found through the get-type prefix, foo_web_error_quark through the
+   underscored name, foo_orphan_quark has no enumeration *)
+Example C12_quark_instance :
+  let es := [{| qe_name := s "Codec2Error"; qe_prefix := Some (s "codec_2_error"); qe_domain := None |};
+             {| qe_name := s "WebError"; qe_prefix := None; qe_domain := None |}] in
+  let qs := [{| q_short := s "web_error"; q_domain := s "foo-web" |}; {| q_short := s "orphan"; q_domain := s "x" |};
+             {| q_short := s "codec_2_error"; q_domain := s "foo-codec" |}] in
+  map qe_domain (fst (pair_all es qs)) = [Some (s "foo-codec"); Some (s "foo-web")] /\ snd (pair_all es qs) = [s "orphan"].
+Proof. vm_compute. split; reflexivity. Qed.
